@@ -112,7 +112,7 @@ Theorem seq_ops_correct (op : leafop) F P : leaf_ok op F P ->
     /\ (forall j, ~ In j (map q_out l) -> s' j = s j).
 Proof.
   intros Hop l. induction l as [|q l IH]; intros s HP Hwf Hlen.
-  - exists s. cbn. split; [reflexivity | split; [tauto | auto]].
+  - exists s. cbn. split; [reflexivity | split; [intros q Hq; contradiction | auto]].
   - destruct q as [[[fl i1] i2] io]. cbn [wf] in Hwf. destruct Hwf as [Hlater Hwf].
     destruct (Hlen (fl, i1, i2, io) (or_introl eq_refl)) as [L12 Lo]. cbn in L12, Lo.
     destruct (Hop fl i1 i2 io s (HP _ (or_introl eq_refl)) L12 Lo) as (s1 & E1 & Ho1 & Hf1).
@@ -130,7 +130,10 @@ Proof.
         intros Hin. apply in_map_iff in Hin. destruct Hin as (q' & Eq & Hin).
         destruct (Hlater q' Hin) as (_ & _ & D). cbn in D. congruence.
       * rewrite (Hres q' Hin). destruct (Hsame q' Hin) as (A & B & _). rewrite A, B. reflexivity.
-    + intros j Hj. cbn [map] in Hj. rewrite Hfr by tauto. apply Hf1. cbn in Hj. intros Ej. apply Hj. left. auto.
+    + intros j Hj. cbn [map q_out] in Hj.
+      assert (Hj1 : j <> io) by (intros Ej; apply Hj; left; auto).
+      assert (Hj2 : ~ In j (map q_out l)) by (intros Hin; apply Hj; right; exact Hin).
+      rewrite (Hfr j Hj2). apply Hf1. exact Hj1.
 Qed.
 End Seq.
 
@@ -198,3 +201,39 @@ Proof.
   apply (seq_ops_correct _ _ _ divide_leaf_ok); auto.
 Qed.
 End Ops.
+
+(* ---------- when does the positional-aliasing condition hold? ---------- *)
+(* (1) the output is a fresh element: its leaves are pairwise distinct and none of them
+       is an operand leaf  (x + y, x * y, a * x, x.copy(), ... : out = space.element()) *)
+Lemma wf_fresh (l : list quad) :
+  NoDup (map q_out l) ->
+  (forall q q', In q l -> In q' l -> q_x1 q' <> q_out q /\ q_x2 q' <> q_out q) ->
+  wf l.
+Proof.
+  induction l as [|q l IH]; intros Hnd Hdis; cbn [wf]; [exact I|].
+  cbn [map] in Hnd. inversion Hnd as [|? ? Hnotin Hnd']. subst. split.
+  - intros q' Hin. destruct (Hdis q q' (or_introl eq_refl) (or_intror Hin)) as [A B].
+    repeat split; try assumption. intros E. apply Hnotin. rewrite <- E. apply in_map. exact Hin.
+  - apply IH; [exact Hnd' | intros a b Ha Hb; apply Hdis; right; assumption].
+Qed.
+
+(* (2) in place, out is x1 at every position (x += y, x -= y, x *= y, x.lincomb(..)):
+       the leaves of x are pairwise distinct and a leaf of y that is also a leaf of x
+       sits at the same position (y is x, or y shares components with x) *)
+Lemma wf_inplace (l : list quad) :
+  NoDup (map q_out l) ->
+  (forall q, In q l -> q_x1 q = q_out q) ->
+  (forall q q', In q l -> In q' l -> q_x2 q' = q_out q -> q_out q' = q_out q) ->
+  wf l.
+Proof.
+  induction l as [|q l IH]; intros Hnd H1 H2; cbn [wf]; [exact I|].
+  cbn [map] in Hnd. inversion Hnd as [|? ? Hnotin Hnd']. subst. split.
+  - intros q' Hin.
+    assert (Hne : q_out q' <> q_out q).
+    { intros E. apply Hnotin. rewrite <- E. apply in_map. exact Hin. }
+    repeat split; try assumption.
+    + rewrite (H1 q' (or_intror Hin)). exact Hne.
+    + intros E. apply Hne. apply (H2 q q' (or_introl eq_refl) (or_intror Hin) E).
+  - apply IH; [exact Hnd' | intros a Ha; apply H1; right; exact Ha
+              | intros a b Ha Hb; apply H2; right; assumption].
+Qed.
